@@ -1,5 +1,7 @@
 (* C14/Properties.v — property theorems only. *)
 From Coq Require Import Lia.
+From Coq Require String.
+Import String.StringSyntax.
 From RM Require Import C08.Proofs C14.Model C14.Proofs C14.Proofs2 Gen.C14Reason Gen.C14Process C14.Source.
 Open Scope Z_scope.
 
@@ -350,6 +352,40 @@ Theorem c14_display_prefix_is_source : forall f p v s,
   In (f, p) GEN_DISPLAY -> f <> WindowsGeneral -> reason_string (f, [v]) = Some s -> exists n, s = p ++ n.
 Proof. exact display_prefix_is_source. Qed.
 Print Assumptions c14_display_prefix_is_source.
+
+(* Mac / iOS: whenever the membership function agrees with the translated name tables, every crash reason has a predicted
+   Display string - also EXC_RESOURCE / EXC_GUARD with their bit-field renderings (exc_resource_string, exc_guard_string). *)
+Theorem c14_mac_reason_string : forall (lk : Z -> Z -> bool),
+  (forall v, lk EN_MAC v = true -> name_of NAMES_ExceptionCodeMac v <> None) ->
+  (forall v, lk EN_MAC_KERN v = true -> name_of NAMES_ExceptionCodeMacBadAccessKernType v <> None) ->
+  (forall v, lk EN_MAC_ACC_ARM v = true -> name_of NAMES_ExceptionCodeMacBadAccessArmType v <> None) ->
+  (forall v, lk EN_MAC_ACC_PPC v = true -> name_of NAMES_ExceptionCodeMacBadAccessPpcType v <> None) ->
+  (forall v, lk EN_MAC_ACC_X86 v = true -> name_of NAMES_ExceptionCodeMacBadAccessX86Type v <> None) ->
+  (forall v, lk EN_MAC_INS_ARM v = true -> name_of NAMES_ExceptionCodeMacBadInstructionArmType v <> None) ->
+  (forall v, lk EN_MAC_INS_PPC v = true -> name_of NAMES_ExceptionCodeMacBadInstructionPpcType v <> None) ->
+  (forall v, lk EN_MAC_INS_X86 v = true -> name_of NAMES_ExceptionCodeMacBadInstructionX86Type v <> None) ->
+  (forall v, lk EN_MAC_ARI_ARM v = true -> name_of NAMES_ExceptionCodeMacArithmeticArmType v <> None) ->
+  (forall v, lk EN_MAC_ARI_PPC v = true -> name_of NAMES_ExceptionCodeMacArithmeticPpcType v <> None) ->
+  (forall v, lk EN_MAC_ARI_X86 v = true -> name_of NAMES_ExceptionCodeMacArithmeticX86Type v <> None) ->
+  (forall v, lk EN_MAC_SOFTWARE v = true -> name_of NAMES_ExceptionCodeMacSoftwareType v <> None) ->
+  (forall v, lk EN_MAC_BRK_ARM v = true -> name_of NAMES_ExceptionCodeMacBreakpointArmType v <> None) ->
+  (forall v, lk EN_MAC_BRK_PPC v = true -> name_of NAMES_ExceptionCodeMacBreakpointPpcType v <> None) ->
+  (forall v, lk EN_MAC_BRK_X86 v = true -> name_of NAMES_ExceptionCodeMacBreakpointX86Type v <> None) ->
+  (forall v, lk EN_MAC_RESOURCE v = true -> name_of NAMES_ExceptionCodeMacResourceType v <> None) ->
+  (forall v, lk EN_MAC_GUARD v = true -> name_of NAMES_ExceptionCodeMacGuardType v <> None) ->
+  forall c e o, o = OsMac \/ o = OsIos -> reason_string (crash_reason lk o c e) <> None.
+Proof. exact mac_reason_string. Qed.
+Print Assumptions c14_mac_reason_string.
+
+Example c14_nonvacuous_mac_strings :
+  (* EXC_RESOURCE / RESOURCE_TYPE_CPU / FLAVOR_CPU_MONITOR interval: 3s CPU limit: 5% CPU consumed: 7% *)
+  reason_string (MacResource, [1; Z.shiftl 1 58 + Z.shiftl 3 7 + 5; 7]) =
+    Some (zs "EXC_RESOURCE / RESOURCE_TYPE_CPU / FLAVOR_CPU_MONITOR interval: 3s CPU limit: 5% CPU consumed: 7%") /\
+  reason_string (MacGuard, [3; 4294967296 + 9; 18446744073709551615]) =
+    Some (zs "EXC_GUARD / GUARD_TYPE_USER/ namespace: 9 guard identifier: 18446744073709551615") /\
+  reason_string (MacGuard, [2; 7; 1]) =
+    Some (zs "EXC_GUARD / GUARD_TYPE_FD / 0x0000000000000007 / 0x0000000000000001").
+Proof. vm_compute. repeat split. Qed.
 
 Example c14_nonvacuous_round5 :
   crash_reason gen_lk OsWindows X86_64
